@@ -523,6 +523,36 @@ def run_multi(mon: Monitor, base: EBase, ctx):
 PLAINS = [b"", b"x", b"0123456789abcdef", b"0123456789abcdefX", b'{"iss":"joe","sub":"42"}', bytes(range(160, 192))]
 
 
+def paired_faults(mon: Monitor, ctx, bases: int, pairs: int):
+    """pairs of faults on compact tokens: two single faults merged segment by segment (e.g. a shortened tag and a lengthened ciphertext)"""
+    rng = ctx.rng
+    for _ in range(bases):
+        if ctx.out_of_time():
+            return
+        alg = rng.choice(g.ALGS)
+        enc = rng.choice(g.ENCS)
+        if not g.combo_ok(alg, enc):
+            enc = "A128CBC-HS256"
+        item = ("compact", alg, enc, rng.choice(g.ECDH_CURVES) if g.is_ecdh(alg) else None, rng.random() < 0.3)
+        base, other = build(item, rng)
+        faults = [f for f in compact_faults(base, other, "quick", rng) if isinstance(f[2], str) and f[2].count(".") == 4]
+        if not faults:
+            continue
+        jkey, jsender = jkeys(base)
+        rk, rs = g.ref_keys(base)
+        ep_name, ep = entry_points(base)[0]
+        o = base.token.split(".")
+        for _ in range(pairs):
+            f1, f2 = rng.choice(faults), rng.choice(faults)
+            a, b = f1[2].split("."), f2[2].split(".")
+            merged = [a[i] if a[i] != o[i] else b[i] for i in range(5)]
+            tok = ".".join(merged)
+            if tok == base.token:
+                continue
+            mon.judge(base, "paired", f"{f1[0]}+{f2[0]}", tok, jkey, jsender, rk, rs, base.allow, ep_name, ep)
+        ctx.count("paired_bases")
+
+
 def plan(tier):
     items = []
     encs = g.ENCS
@@ -611,6 +641,8 @@ def run_shard(ctx):
                 b2 = EBase("compact", o.value, {}, base.plaintext, base.recs, json.loads(b64u_dec(o.value.split(".")[0])))
                 run_base(mon, b2, None, ctx, families={"respell-protected", "noncanonical-b64-protected", "bitflip-tag", "bitflip-iv", "tag-truncate",
                                                        "iv-truncate", "tag-extend", "nonempty-ek-direct", "zip-added", "tag-boundary-shift", "iv-boundary-shift", "whitespace-or-padding"})
+    # paired faults: a sample on the quick tier, until the budget ends on the thorough tier
+    paired_faults(mon, ctx, 2 if ctx.tier == "quick" else 10 ** 6, 150 if ctx.tier == "quick" else 400)
     mon.tr.stop()
 
 
